@@ -38,9 +38,9 @@ def swarm(kw, **extra):
     gapsets = [(0, 0, 0, 1), (0, 1, 2, 3), (1, 2, 3), (0, 0, 1, 2, 5, 10), (2, 5, 10), (0,)]
 
     def build(t):
-        ov, lb, un, ld, bb, fm, pp, gi, md, mo = t
+        ov, lb, un, ld, bb, fm, pp, gi, md, mo, ae, zr = t
         a = dict(overlap=ov, limit_binds=lb and not ov, unsorted=un, long_durations=ld, b2b=bb, twins=not bb, few_machines=fm,
-                 piled_plans=pp, start_gaps=gapsets[gi], max_duration=md, min_obs=mo,
+                 piled_plans=pp, start_gaps=gapsets[gi], max_duration=md, min_obs=mo, abs_est=ae, zero_rate=zr,
                  modes=('roomy',) if (ov or lb) else ('roomy', 'band'))
         a.update(kw)
         a.update(extra)
@@ -48,7 +48,7 @@ def swarm(kw, **extra):
         return scenarios(**a)
     b = st.booleans()
     return st.tuples(b, b, b, b, b, b, b, st.integers(0, len(gapsets) - 1), st.sampled_from([2, 3, 6, 10]),
-                     st.integers(1, 3)).flatmap(build)
+                     st.integers(1, 3), b, b).flatmap(build)
 
 
 def tight(kw, **extra):
@@ -327,7 +327,9 @@ class C04(SimSpec):
         kw = self.gen_kwargs(tier)
         return mix((4, scenarios(delays=True, min_obs=2, **kw)), (1, scenarios(delays=True, **kw)),
                    (2, crowd(kw, delays=True)), (1, tight(kw)), (1, scenarios(unsorted=True, min_obs=2, delays=True, **kw)),
-                   (2, swarm(kw, delays=True)), (3, scenarios(adversary=True, delays=True, **kw)), (1, swarm(kw, adversary=True)))
+                   (2, swarm(kw, delays=True)), (3, scenarios(adversary=True, delays=True, **kw)), (1, swarm(kw, adversary=True)),
+                   # coarser timestep units with observation lengths that are not whole numbers of steps; observations without data
+                   (1, scenarios(frac_duration=True, zero_rate=True, units=True, modes=('roomy',), delays=True, **kw)))
 
     def aborted(self, tr):
         return tr.status != 'completed' and tr.sc['alg']['kind'] != 'adversary'
@@ -805,7 +807,9 @@ class C19(SimSpec):
     def strategy(self, tier):
         kw = self.gen_kwargs(tier)
         return mix((3, scenarios(delays=True, **kw)), (1, crowd(kw, delays=True)), (1, tight(kw)), (1, swarm(kw, delays=True)),
-                   (1, scenarios(unsorted=True, min_obs=2, delays=True, **kw)))
+                   (1, scenarios(unsorted=True, min_obs=2, delays=True, **kw)),
+                   # observations without data: the buffer is "empty" while their workflows are still queued
+                   (1, scenarios(zero_rate=True, delays=True, **kw)))
 
     def nontrivial(self, tr):
         c = tr.counts
